@@ -43,10 +43,20 @@ OWN = {
 TASK_IDS = ["a", "c", "c.b", "c.m", "c.d"]
 
 
+LIBEXIT = 'taskreport refused "out:put" {\n  formats csv\n  columns id\n}\n'   # ':' in a report file name: the library calls sys.exit
+
+
 def text_for(sit):
+    """The input of a situation: str, or bytes for input that is not valid UTF-8, or None (no file)."""
     i = sit["input"]
     if i == "ok":
         return BASE + OWN[sit["own"]]
+    if i == "crlf":
+        return (BASE + OWN[sit["own"]]).replace("\n", "\r\n")
+    if i == "libexit":
+        return BASE + OWN[sit["own"]] + LIBEXIT
+    if i == "undecodable":
+        return (BASE + OWN[sit["own"]]).encode().replace(b'"P"', b'"P\xff\xfe\xc3"')
     if i == "syntax":
         return (BASE + OWN[sit["own"]]).replace("task a", "tsak a")
     if i == "model":
@@ -58,7 +68,18 @@ def text_for(sit):
     return None
 
 
-def invoke(scr, sit, cwd, tmpdir, text=None, timeout=120, strace=None):
+def as_bytes(text):
+    return text if isinstance(text, bytes) else (text or "").encode()
+
+
+def dead_pipe():
+    """A pipe whose reader has gone away: every write fails with EPIPE."""
+    r, w = os.pipe()
+    os.close(r)
+    return w
+
+
+def invoke(scr, sit, cwd, tmpdir, text=None, timeout=300, strace=None, hashseed=None):
     """Run one real `plan report` for the situation; returns observation dict."""
     text = text_for(sit) if text is None else text
     args = [PY, "-m", "scriptplan.cli.plan", "report"]
@@ -73,16 +94,16 @@ def invoke(scr, sit, cwd, tmpdir, text=None, timeout=120, strace=None):
             args.append(cwd)
         else:
             args.append(os.path.join(cwd, sit.get("fname", "input.tjp")))
-            inbytes = text.encode()
+            inbytes = as_bytes(text)
     else:
         if sit["channel"] == "dash":
             args.append("-")
-        stdin_data = (text or "").encode()
+        stdin_data = as_bytes(text)
         inbytes = stdin_data
     outfile = None
     pre = None
-    if sit.get("out", "stdout") != "stdout":
-        outfile = sit["outfile"]
+    if sit.get("out", "stdout") not in ("stdout", "brokenpipe"):
+        outfile = sit["outfile"] if sit["out"] != "baddir" else os.path.join(os.path.dirname(sit["outfile"]), "no", "such", "dir", "result")
         args[args.index("report") + 1:args.index("report") + 1] = ["--output", outfile] + (["--force"] if sit["out"] == "force" else [])
         if sit["out"] in ("exists", "force"):
             pre = b"PRE-EXISTING CONTENT\n"
@@ -91,8 +112,19 @@ def invoke(scr, sit, cwd, tmpdir, text=None, timeout=120, strace=None):
     if strace:
         args = ["strace", "-f", "-qq", "-e", "trace=file", "-o", strace] + args
     env = env_for(scr, hooks=False, extra={"TMPDIR": tmpdir})
-    p = subprocess.run(args, cwd=cwd, env=env, input=stdin_data if stdin_data is not None else b"", stdout=subprocess.PIPE,
-                       stderr=subprocess.PIPE, timeout=timeout)
+    if hashseed is not None:
+        env["PYTHONHASHSEED"] = hashseed
+    if sit.get("out") == "brokenpipe":
+        w = dead_pipe()
+        try:
+            p = subprocess.run(args, cwd=cwd, env=env, input=stdin_data if stdin_data is not None else b"", stdout=w,
+                               stderr=subprocess.PIPE, timeout=timeout)
+        finally:
+            os.close(w)
+        p.stdout = b""
+    else:
+        p = subprocess.run(args, cwd=cwd, env=env, input=stdin_data if stdin_data is not None else b"", stdout=subprocess.PIPE,
+                           stderr=subprocess.PIPE, timeout=timeout)
     written = None
     if outfile is not None and os.path.exists(outfile):
         written = open(outfile, "rb").read()
@@ -168,44 +200,49 @@ def check_c19(prop, tier, replay=None):
     with scratch_build() as scr:
         auto_rows = {}
         results = []
-        for hs in seeds:
-            for t in terms:
-                sit = t["sit"]
-                wd = tempfile.mkdtemp(prefix="spcli_")
-                try:
-                    cwd = os.path.join(wd, "cwd")
-                    tmpd = os.path.join(wd, "tmp")
-                    os.mkdir(cwd)
-                    os.mkdir(tmpd)
-                    text = text_for(sit)
-                    if sit["channel"] == "path" and text is not None:
-                        with open(os.path.join(cwd, "input.tjp"), "w") as f:
-                            f.write(text)
-                    before = listing(cwd)
-                    os.environ["PYTHONHASHSEED"] = hs
-                    outd = os.path.join(wd, "out")
-                    os.mkdir(outd)
-                    sit = dict(sit, outfile=os.path.join(outd, "result." + sit["format"]))
-                    obs = invoke(scr, sit, cwd, tmpd)
-                    kind, detail = classify(sit, obs)
-                    wkind = "none"
-                    if sit["out"] != "stdout":
-                        if obs["written"] == obs["pre"]:
-                            wkind = "none"              # nothing written / the pre-existing file is untouched
-                        elif sit["out"] == "exists":
-                            wkind = "clobbered"
-                        else:
-                            wkind, _ = classify(sit, dict(obs, stdout=obs["written"]))
-                    left_tmp = listing(tmpd)
-                    new_cwd = [x for x in listing(cwd) if x not in before]
-                finally:
-                    shutil.rmtree(wd, ignore_errors=True)
-                    os.environ["PYTHONHASHSEED"] = "0"
+        def one(arg):
+            hs, t = arg
+            sit = t["sit"]
+            wd = tempfile.mkdtemp(prefix="spcli_")
+            try:
+                cwd = os.path.join(wd, "cwd")
+                tmpd = os.path.join(wd, "tmp")
+                os.mkdir(cwd)
+                os.mkdir(tmpd)
+                text = text_for(sit)
+                if sit["channel"] == "path" and text is not None:
+                    with open(os.path.join(cwd, "input.tjp"), "wb") as f:
+                        f.write(as_bytes(text))
+                before = listing(cwd)
+                outd = os.path.join(wd, "out")
+                os.mkdir(outd)
+                sit = dict(sit, outfile=os.path.join(outd, "result." + sit["format"]))
+                obs = invoke(scr, sit, cwd, tmpd, hashseed=hs)
+                kind, detail = classify(sit, obs)
+                wkind = "none"
+                if sit["out"] not in ("stdout", "brokenpipe"):
+                    if obs["written"] == obs["pre"]:
+                        wkind = "none"              # nothing written / the pre-existing file is untouched
+                    elif sit["out"] == "exists":
+                        wkind = "clobbered"
+                    else:
+                        wkind, _ = classify(sit, dict(obs, stdout=obs["written"]))
+                left_tmp = listing(tmpd)
+                new_cwd = [x for x in listing(cwd) if x not in before]
+            finally:
+                shutil.rmtree(wd, ignore_errors=True)
+            return hs, t, sit, text, obs, kind, detail, wkind, left_tmp, new_cwd
+
+        from concurrent.futures import ThreadPoolExecutor
+        with ThreadPoolExecutor(max_workers=10) as ex:
+            outcomes = list(ex.map(one, [(hs, t) for hs in seeds for t in terms]))
+        for hs, t, sit, text, obs, kind, detail, wkind, left_tmp, new_cwd in outcomes:
+            if True:
                 run.evaluated()
                 run.nontrivial(phash(sit))
                 key = "%s-%s-%s-%s-%s-seed%s" % (sit["input"], sit["channel"], sit["format"], sit["own"], sit["out"], hs)
                 problems = []
-                ok_exits = {2, 3} if (sit["out"] == "exists" and t["exit"] == 2) else {t["exit"]}   # the help text documents 3, the code uses 2
+                ok_exits = set(t["okExits"])         # decided by the spec (AllowedExit)
                 if obs["exit"] not in ok_exits:
                     problems.append("exit status %d, contract says %s" % (obs["exit"], sorted(ok_exits)))
                 if wkind != t["written"]:
@@ -219,9 +256,10 @@ def check_c19(prop, tier, replay=None):
                 if new_cwd:
                     problems.append("created in cwd: %s" % new_cwd[:4])
                 if kind == "auto":
-                    auto_rows.setdefault(sit["format"], []).append((key, detail["rows"], obs["stdout"] if sit["own"] == "none" else None, sit))
+                    # same text <=> same input class (ok / crlf): rows must agree within a format, bytes within (format, text)
+                    auto_rows.setdefault((sit["format"], sit["input"]), []).append((key, detail["rows"], obs["stdout"] if sit["own"] == "none" else None, sit))
                 if problems:
-                    run.violation(key, {"term": t, "text": text}, {"situation": sit, "problems": problems, "stderr": obs["stderr"][-300:].decode(errors="replace")})
+                    run.violation(key, {"term": t, "text": text if isinstance(text, (str, type(None))) else text.decode("latin-1")}, {"situation": sit, "problems": problems, "stderr": obs["stderr"][-300:].decode(errors="replace")})
                 results.append((key, kind, obs["exit"]))
         # the emitted report is the same whatever the channel and whatever other reports the file defines
         for fmt, lst in auto_rows.items():
@@ -234,7 +272,7 @@ def check_c19(prop, tier, replay=None):
                 if raw is not None:
                     raws.setdefault(raw, []).append(key)
             if len(raws) > 1:
-                run.violation("bytes-" + fmt, {"keys": list(raws.values())}, {"why": "stdout bytes differ between input channels for the same text", "groups": [v[:3] for v in raws.values()]})
+                run.violation("bytes-%s-%s" % fmt, {"keys": list(raws.values())}, {"why": "stdout bytes differ between input channels for the same text", "groups": [v[:3] for v in raws.values()]})
         run.cov["traces_validated_against_impl"] += len(results)
         run.cov["exhaustive"] = True
         for t in terms[:3]:
@@ -257,6 +295,13 @@ CONC_SITS = [
     {"input": "ok", "channel": "path", "format": "json", "own": "none", "out": "exists"},
     {"input": "ok", "channel": "stdin", "format": "csv", "own": "both", "out": "exists"},
     {"input": "ok", "channel": "path", "format": "csv", "own": "none", "out": "newfile"},
+    {"input": "undecodable", "channel": "path", "format": "json", "own": "none"},
+    {"input": "undecodable", "channel": "stdin", "format": "csv", "own": "both"},
+    {"input": "libexit", "channel": "path", "format": "json", "own": "json"},
+    {"input": "libexit", "channel": "dash", "format": "csv", "own": "none"},
+    {"input": "crlf", "channel": "stdin", "format": "json", "own": "none"},
+    {"input": "ok", "channel": "path", "format": "json", "own": "both", "out": "brokenpipe"},
+    {"input": "ok", "channel": "stdin", "format": "csv", "own": "none", "out": "baddir"},
 ]
 
 
@@ -358,8 +403,8 @@ def concurrent_round(scr, sits, same_text=True, with_strace=False):
                 fname = "input.tjp" if same_text else "input%d.tjp" % i
                 s = dict(s, fname=fname)
                 sits[i] = s
-                with open(os.path.join(cwd, fname), "w") as f:
-                    f.write(t)
+                with open(os.path.join(cwd, fname), "wb") as f:
+                    f.write(as_bytes(t))
         before = listing(cwd)
         pre = {os.path.join(cwd, x) for x in before} | {cwd, tmpd}
         procs = []
@@ -369,8 +414,8 @@ def concurrent_round(scr, sits, same_text=True, with_strace=False):
             if s["format"] == "csv":
                 args.append("--csv")
             data = None
-            if s.get("out", "stdout") != "stdout":
-                of = os.path.join(outs, "result%d.%s" % (i, s["format"]))
+            if s.get("out", "stdout") not in ("stdout", "brokenpipe"):
+                of = os.path.join(outs, "result%d.%s" % (i, s["format"])) if s["out"] != "baddir" else os.path.join(outs, "no", "such%d" % i, "result")
                 args += ["--output", of] + (["--force"] if s["out"] == "force" else [])
                 if s["out"] in ("exists", "force"):
                     with open(of, "w") as f:
@@ -380,10 +425,15 @@ def concurrent_round(scr, sits, same_text=True, with_strace=False):
             else:
                 if s["channel"] == "dash":
                     args.append("-")
-                data = (texts[i] or "").encode()
+                data = as_bytes(texts[i])
             if with_strace:
                 args = ["strace", "-f", "-y", "-qq", "-e", "trace=file", "-o", os.path.join(logs, "p%d.log" % i)] + args
-            p = subprocess.Popen(args, cwd=cwd, env=env, stdin=subprocess.PIPE, stdout=subprocess.PIPE, stderr=subprocess.PIPE)
+            if s.get("out") == "brokenpipe":
+                w = dead_pipe()
+                p = subprocess.Popen(args, cwd=cwd, env=env, stdin=subprocess.PIPE, stdout=w, stderr=subprocess.PIPE)
+                os.close(w)
+            else:
+                p = subprocess.Popen(args, cwd=cwd, env=env, stdin=subprocess.PIPE, stdout=subprocess.PIPE, stderr=subprocess.PIPE)
             procs.append((p, data))
         # feed stdin and collect concurrently
         import threading
@@ -393,7 +443,7 @@ def concurrent_round(scr, sits, same_text=True, with_strace=False):
             p, data = procs[i]
             try:
                 out, err = p.communicate(input=data if data is not None else b"", timeout=600)
-                res[i] = {"exit": p.returncode, "stdout": out, "stderr": err}
+                res[i] = {"exit": p.returncode, "stdout": out or b"", "stderr": err}
             except subprocess.TimeoutExpired:
                 p.kill()
                 res[i] = {"exit": -9, "stdout": b"", "stderr": b"TIMEOUT"}
